@@ -115,11 +115,15 @@ func roundTrip(x Expr, bracket bool) (y Expr, ok bool) {
 	return y, true
 }
 
+// float constants whose shortest decimal form needs more than float32
+// precision, a large and a tiny magnitude, and two short ones
+var c14Floats = [...]float64{0.5, 0.30000000000000004, 16777217.5, 1e300, 5e-320, -2.25}
+
 // VerifC14_Keys: Child(k) for every key of <= K symbolic bytes in every
 // position (first, after root, after a child, after a descent, in a union),
 // dot and bracket printing.
 func VerifC14_Keys() {
-	pos := vx.Choose("pos", 7)
+	pos := vx.Choose("pos", 8)
 	bracket := vx.Choose("bracket", 2) == 1
 	n := vx.Choose("klen", vx.Param("K", 2)+1)
 	k := vx.String("key", n)
@@ -129,6 +133,7 @@ func VerifC14_Keys() {
 	vx.Key("bracket", bracket)
 	vx.Key("klen", n)
 	var x Expr
+	var fconst float64
 	switch pos {
 	case 0:
 		x = C(k)
@@ -144,12 +149,20 @@ func VerifC14_Keys() {
 		x = R().F(Eq(Get(A().C("a")), ConstString(k)))
 	case 6: // the key inside the sub-path of a filter
 		x = R().F(Eq(Get(A().C(k)), ConstInt(1)))
+	case 7: // a float constant (concrete menu) in a filter; the key is not used
+		if n != 0 {
+			vx.Assume(false)
+		}
+		fconst = c14Floats[vx.Choose("float", len(c14Floats))]
+		x = R().F(Eq(Get(A().C("a")), ConstFloat(fconst)))
 	}
 	y, ok := roundTrip(x, bracket)
 	if ok && pos >= 5 {
 		// the re-parsed filter selects what the original selects
 		var data any
-		if pos == 5 {
+		if pos == 7 {
+			data = []any{map[string]any{"a": fconst}, map[string]any{"a": "x"}}
+		} else if pos == 5 {
 			data = []any{map[string]any{"a": k}, map[string]any{"a": k + "~"}, map[string]any{"a": int64(1)}}
 		} else {
 			data = []any{map[string]any{k: int64(1)}, map[string]any{k + "~": int64(1)}, map[string]any{k: int64(2)}}
